@@ -555,11 +555,13 @@ func c05SeekChain(w *World, r *Report) {
 			infoPath := w.accessPath(args[2])
 			viaTable, okKey, viaStart := false, false, false
 			for _, v := range backSlice(args[3], SliceOpts{MaxDepth: 16, ThroughArg: func(cc *ssa.CallCommon) []ssa.Value {
-				if n := callSym(cc).name; n == "Values" || n == "append" {
+				if n := callSym(cc).name; n == "Values" || n == "append" || strings.HasSuffix(callSym(cc).pkg, "samber/lo") {
 					return cc.Args
 				}
 				return getterRecv(cc)
 			}}) {
+				// a mapping literal (lo.Map(info.StartPositions, func…)) reads the elements through its own parameter:
+				// what matters is the collection it is applied to, which is followed above
 				if lk, isL := v.(*ssa.Lookup); isL && strings.HasSuffix(w.accessPath(lk.X), ".channelSeekPositions") {
 					viaTable = true
 					okKey = w.accessPath(lk.Index) == infoPath+".ID"
@@ -621,16 +623,38 @@ func c05SeekChain(w *World, r *Report) {
 			okSel := false
 			if sel != nil && len(call.Call.Args) == 1 && call.Call.Args[0] == pchV {
 				// the selector returns an element of the seekPositions parameter whose ChannelName equals its argument
+				// (a hand-written loop, or lo.Find(seekPositions, func(p) bool { return p.ChannelName == channelName }))
 				cmp, fromParam := false, false
-				eachInstr(sel, func(x ssa.Instruction) {
+				isSelArg := func(v ssa.Value) bool {
+					for _, x := range backSlice(v, SliceOpts{MaxDepth: 4}) {
+						if x == ssa.Value(sel.Params[0]) {
+							return true
+						}
+					}
+					return false
+				}
+				eachInstrDeep(sel, func(_ *ssa.Function, x ssa.Instruction) {
 					if bo, isB := x.(*ssa.BinOp); isB && bo.Op == token.EQL {
-						if (strings.HasSuffix(w.accessPath(bo.X), ".ChannelName") && bo.Y == ssa.Value(sel.Params[0])) || (strings.HasSuffix(w.accessPath(bo.Y), ".ChannelName") && bo.X == ssa.Value(sel.Params[0])) {
+						if (strings.HasSuffix(w.accessPath(bo.X), ".ChannelName") && isSelArg(bo.Y)) || (strings.HasSuffix(w.accessPath(bo.Y), ".ChannelName") && isSelArg(bo.X)) {
 							cmp = true
 						}
 					}
+				})
+				eachInstr(sel, func(x ssa.Instruction) {
 					if rt, isR := x.(*ssa.Return); isR && len(rt.Results) == 1 && !isNilConst(rt.Results[0]) {
-						p := w.accessPath(rt.Results[0])
-						fromParam = strings.HasPrefix(p, "param:"+src.Params[4].Name()+"[]") || strings.Contains(p, src.Params[4].Name()+"[]")
+						for _, y := range backSlice(rt.Results[0], SliceOpts{MaxDepth: 8, ThroughArg: func(cc *ssa.CallCommon) []ssa.Value {
+							if strings.HasSuffix(callSym(cc).pkg, "samber/lo") {
+								return cc.Args
+							}
+							return nil
+						}}) {
+							if y == ssa.Value(src.Params[4]) {
+								fromParam = true
+							}
+							if strings.Contains(w.accessPath(y), src.Params[4].Name()) {
+								fromParam = true
+							}
+						}
 					}
 				})
 				okSel = cmp && fromParam
